@@ -132,6 +132,11 @@ def build_dataset(case):
   eff = raw
   if case.get('slice'):
     sl = slice(*case['slice'])
+    if case.get('parent_used_first'):
+      # the parent dataset was in use before it is sliced: its size was asked
+      # for and a batch was drawn from it
+      len(ds)
+      next(iter(ds.batch(batch_size=2)), None)
     ds = ds[sl]
     eff = {k: v[sl] for k, v in raw.items()}
   return raw, ds, eff
@@ -340,6 +345,7 @@ def case_strategy(draw, tier, padded):
     bound = st.one_of(st.none(), st.integers(-n - 2, n + 2))
     step = draw(st.sampled_from([None, 1, 2, 3, -1, -2, 5]))
     case['slice'] = [draw(bound), draw(bound), step]
+    case['parent_used_first'] = draw(st.booleans())
   if preps and draw(st.booleans()):
     case['warm'] = True
   if draw(st.integers(0, 2)) == 0:
